@@ -102,6 +102,9 @@ func shortFn(fn string) string {
 	return strings.TrimPrefix(fn, "github.com/z7zmey/php-parser/")
 }
 
+// the C18 harness functions that access memory through pool-returned pointers
+var poolObjectAccessor = map[string]bool{"main.stampToken": true, "main.stampPos": true, "main.tokenHolds": true, "main.posHolds": true}
+
 // judgeRaces turns the race log of one run into violations (a repository frame
 // is innermost on at least one side) or an infrastructure complaint (both sides
 // are the simulator's own code). DESIGN.md §2.3 attribution rule.
@@ -117,6 +120,18 @@ func (b *build) judgeRaces(logGlob string) (viol []scn.Violation, infra string, 
 			nReports++
 			f0, f1 := innermost(rep.acc[0]), innermost(rep.acc[1])
 			repoSide := (f0 != nil && f0.class == "repo") || (f1 != nil && f1.class == "repo")
+			if !repoSide && f0 != nil && f1 != nil && poolObjectAccessor[f0.fn] && poolObjectAccessor[f1.fn] {
+				// both accesses are the C18 harness writing/reading THROUGH pointers
+				// the pools returned, in two different tasks: the only memory those
+				// functions touch besides their own locals is pool-owned, so two
+				// tasks' pools handed out the same memory
+				sig := "race:objects-of-different-tasks-pools-share-memory"
+				if !seen[sig] {
+					seen[sig] = true
+					viol = append(viol, scn.Violation{Oracle: "P4-pools-independent", Sig: sig, Detail: "two tasks, each using only pointers returned by its own pools, touched the same memory:\n" + b.describeRace(rep)})
+				}
+				continue
+			}
 			if !repoSide {
 				if infra == "" {
 					infra = "race report attributed to the simulator's own code only:\n" + rep.raw
